@@ -44,20 +44,20 @@ def bondLineShape : List (String × String × String) := [("fmt", ">3d", "plus:1
 def chargeHeadShape : List (String × String × String) := [("lit", "M  CHG", ""), ("fmt", ">3d", "call:len")]
 /-- one `M  CHG` entry f-string -/
 def chargeEntryShape : List (String × String × String) := [("lit", " ", ""), ("fmt", ">3d", "plus:1"), ("lit", " ", ""), ("fmt", ">3d", "value")]
-/-- order of the line groups returned by the V2000 writer -/
-def v2000LineOrder : List String := ["name:counts_line", "name:atom_lines", "name:bond_lines", "name:charge_lines", "lit:M  END"]
+/-- order of the line groups returned by the V2000 writer (locals named by what they hold) -/
+def v2000LineOrder : List String := ["role:counts", "role:atoms", "role:bonds", "role:charges", "lit:M  END"]
 /-- V3000 counts line f-string -/
 def v3000CountsShape : List (String × String × String) := [("lit", "COUNTS ", ""), ("fmt", "", "value"), ("lit", " ", ""), ("fmt", "", "value"), ("lit", " 0 0 0", "")]
 /-- V3000 atom line f-string -/
-def v3000AtomShape : List (String × String × String) := [("fmt", "", "plus:1"), ("lit", " ", ""), ("fmt", "", "call:_quote"), ("lit", " ", ""), ("fmt", ".4f", "value"), ("lit", " ", ""), ("fmt", ".4f", "value"), ("lit", " ", ""), ("fmt", ".4f", "value"), ("lit", " 0 ", ""), ("fmt", "", "call:_to_property")]
+def v3000AtomShape : List (String × String × String) := [("fmt", "", "plus:1"), ("lit", " ", ""), ("fmt", "", "call:private"), ("lit", " ", ""), ("fmt", ".4f", "value"), ("lit", " ", ""), ("fmt", ".4f", "value"), ("lit", " ", ""), ("fmt", ".4f", "value"), ("lit", " 0 ", ""), ("fmt", "", "call:private")]
 /-- V3000 bond line f-string -/
 def v3000BondShape : List (String × String × String) := [("fmt", "", "plus:1"), ("lit", " ", ""), ("fmt", "", "value"), ("lit", " ", ""), ("fmt", "", "plus:1"), ("lit", " ", ""), ("fmt", "", "plus:1")]
 /-- V3000 block skeleton -/
-def v3000Skeleton : List String := ["lit:BEGIN CTAB", "name:counts_line", "lit:BEGIN ATOM", "name:atom_lines", "lit:END ATOM", "lit:BEGIN BOND", "name:bond_lines", "lit:END BOND", "lit:END CTAB"]
+def v3000Skeleton : List String := ["lit:BEGIN CTAB", "role:counts", "lit:BEGIN ATOM", "role:atoms", "lit:END ATOM", "lit:BEGIN BOND", "role:bonds", "lit:END BOND", "lit:END CTAB"]
 /-- prefix of every V3000 line -/
 def v30Prefix : String := "M  V30 "
 /-- what the V3000 writer returns -/
-def v3000Return : List String := ["name:V2000_COMPATIBILITY_LINE", "name:lines", "lit:M  END"]
+def v3000Return : List String := ["name:V2000_COMPATIBILITY_LINE", "role:lines", "lit:M  END"]
 /-- `_to_property`: compare ops / constants and the f-string -/
 def toPropertyShape : List String := ["Eq:0", "CHG={}", "''"]
 /-- `_quote`: connective, tests (operator:constant) and the quoted form -/
@@ -91,12 +91,12 @@ def elemGuard : String × Nat := ("Gt", 3)
 /-- V2000 writer: coordinate guard < element guard < atom lines < default-bond lookup (source order) -/
 def v2000GuardOrder : Bool := true
 /-- exception classes raised, per function, in source order -/
-def raisesTable : List (String × List String) := [("write_structure_to_ctab", ["TypeError", "BadStructureError", "BadStructureError", "ValueError", "ValueError"]), ("_write_structure_to_ctab_v2000", ["BadStructureError", "BadStructureError"]), ("_write_structure_to_ctab_v3000", ["BadStructureError"]), ("read_structure_from_ctab", ["InvalidFileError", "InvalidFileError"]), ("_read_structure_from_ctab_v3000", ["InvalidFileError", "NotImplementedError"]), ("_get_block_v3000", ["InvalidFileError"]), ("Key.__post_init__", ["ValueError", "ValueError", "ValueError", "ValueError", "ValueError"]), ("Key.deserialize", ["DeserializationError", "DeserializationError"]), ("Metadata.deserialize", ["DeserializationError"]), ("_check_metadata_value", ["ValueError", "ValueError", "ValueError", "ValueError"]), ("_add_key_value_pair", ["DeserializationError"]), ("SDRecord.get_structure", ["InvalidFileError"]), ("SDFile.serialize", ["SerializationError", "SerializationError"]), ("SDFile.__getitem__", ["DeserializationError"]), ("SDFile.__setitem__", ["TypeError"]), ("SDFile.record", ["ValueError", "ValueError"]), ("Header.serialize", ["ValueError", "ValueError"]), ("MOLFile.get_structure", ["InvalidFileError"]), ("to_mol", ["BadStructureError", "BadStructureError"]), ("from_mol", ["BadStructureError"])]
+def raisesTable : List (String × List String) := [("write_structure_to_ctab", ["TypeError", "BadStructureError", "BadStructureError", "ValueError", "ValueError"]), ("v2000-writer", ["BadStructureError", "BadStructureError"]), ("v3000-writer", ["BadStructureError"]), ("read_structure_from_ctab", ["InvalidFileError", "InvalidFileError"]), ("v3000-reader", ["InvalidFileError", "NotImplementedError"]), ("v3000-block-scan", ["InvalidFileError"]), ("Key.__post_init__", ["ValueError", "ValueError", "ValueError", "ValueError", "ValueError"]), ("Key.deserialize", ["DeserializationError", "DeserializationError"]), ("Metadata.deserialize", ["DeserializationError"]), ("metadata-value-check", ["ValueError", "ValueError", "ValueError", "ValueError"]), ("metadata-add-pair", ["DeserializationError"]), ("SDRecord.get_structure", ["InvalidFileError"]), ("SDFile.serialize", ["SerializationError", "SerializationError"]), ("SDFile.__getitem__", ["DeserializationError"]), ("SDFile.__setitem__", ["TypeError"]), ("SDFile.record", ["ValueError", "ValueError"]), ("Header.serialize", ["ValueError", "ValueError"]), ("MOLFile.get_structure", ["InvalidFileError"]), ("to_mol", ["BadStructureError", "TypeError", "BadStructureError"]), ("from_mol", ["BadStructureError"])]
 /-- default values of the public entry points (argument, default as source text) -/
 def defaultsTable : List (String × List (String × String)) := [("write_structure_to_ctab", [("atoms", "<required>"), ("default_bond_type", "BondType.ANY"), ("version", "None")]), ("MOLFile.set_structure", [("atoms", "<required>"), ("default_bond_type", "BondType.ANY"), ("version", "None")]), ("SDRecord.set_structure", [("atoms", "<required>"), ("default_bond_type", "BondType.ANY"), ("version", "None")]), ("SDRecord.__init__", [("header", "None"), ("ctab", "None"), ("metadata", "None")]), ("SDFile.__init__", [("records", "None")]), ("Metadata.__init__", [("metadata", "None")]), ("convert.get_structure", [("mol_file", "<required>"), ("record_name", "None")]), ("convert.set_structure", [("mol_file", "<required>"), ("atoms", "<required>"), ("default_bond_type", "BondType.ANY"), ("version", "None"), ("record_name", "None")]), ("to_mol", [("atoms", "<required>"), ("kekulize", "False"), ("use_dative_bonds", "False"), ("include_extra_annotations", "()"), ("explicit_hydrogen", "None")]), ("from_mol", [("mol", "<required>"), ("conformer_id", "None"), ("add_hydrogen", "None")]), ("Header", [("mol_name", "''"), ("initials", "''"), ("program", "''"), ("time", "None"), ("dimensions", "''"), ("scaling_factors", "''"), ("energy", "''"), ("registry_number", "''"), ("comments", "''")]), ("Metadata.Key", [("number", "None"), ("name", "None"), ("registry_internal", "None"), ("registry_external", "None")])]
-/-- sdf.py `_N_HEADER`, mol.py `N_HEADER` -/
+/-- sdf.py: number of header lines (start of the scan for the CTAB end), mol.py `N_HEADER` -/
 def nHeader : Nat × Nat := (3, 3)
-/-- sdf.py `_RECORD_DELIMITER` -/
+/-- sdf.py: the record delimiter -/
 def recordDelimiter : String := "$$$$"
 /-- `Metadata.Key._NAME_INPUT_REGEX` -/
 def keyNameRegex : String := "^[a-zA-Z0-9][\\w.]*\\Z"
@@ -113,13 +113,13 @@ def valueChecks : List String := [">", "\n", "Eq:0", "Eq:0", "call:startswith", 
 /-- `Metadata.deserialize`: startswith literal and the join separator -/
 def mdDeserializeStrings : List String := [">", "\n"]
 /-- `_get_ctab_stop`: number of range arguments (2 = forward scan), its start, the startswith literal, `return i + k` -/
-def ctabStopShape : List String := ["args:2", "start:_N_HEADER", "M  END", "ret:+1"]
+def ctabStopShape : List String := ["args:2", "start:3", "M  END", "ret:+1"]
 /-- mol.py `_get_ctab_lines`: where the scan for `M  END` starts, the startswith literal -/
-def ctabLinesShape : List String := ["enumerate-from:N_HEADER/start=N_HEADER", "M  END"]
+def ctabLinesShape : List String := ["forward-from:3", "M  END"]
 /-- `SDFile.deserialize`: how a delimiter line is recognised -/
-def delimiterTest : List String := ["startswith:_RECORD_DELIMITER"]
+def delimiterTest : List String := ["startswith:delimiter"]
 /-- `SDFile.serialize`: the delimiter-line check -/
-def delimiterCheck : List String := ["startswith:_RECORD_DELIMITER"]
+def delimiterCheck : List String := ["startswith:delimiter"]
 /-- convert.py `_get_or_create_record`: the invented record name, and the membership guard before a record is created -/
 def convertShape : List String := ["Molecule", "NotIn"]
 /-- header.py: (Header field, start, stop, stripped) read from the second line (`time`: via strptime) -/
